@@ -22,6 +22,26 @@ fn num(rng: &mut Prng) -> usize {
     }
 }
 
+/// every reply parses back (serde_bencode) to a value that is written to the same bytes
+fn parse_back(bytes: &[u8]) {
+    // serde_bencode reads integers as i64: replies whose counters exceed i64::MAX (impossible
+    // peer counts; recorded as a known limitation) are not expected to parse back
+    let text = String::from_utf8_lossy(bytes);
+    let mut big = false;
+    for part in text.split(|c: char| !c.is_ascii_digit()) {
+        if part.len() >= 19 && part.parse::<i64>().is_err() {
+            big = true;
+        }
+    }
+    if big {
+        return;
+    }
+    let parsed = Response::parse_bytes(bytes).expect("reply does not parse back");
+    let mut again = Vec::new();
+    parsed.write_bytes(&mut again).unwrap();
+    assert_eq!(again, bytes, "reply does not round-trip through Response::parse_bytes");
+}
+
 pub fn run(args: &Args) {
     crate::drive(args, 0x4772, |rng, _keep, _seed, header, items| {
         *header = "true".to_string();
@@ -58,6 +78,7 @@ pub fn run(args: &Args) {
                     let mut out = Vec::new();
                     let n_written = r.write_bytes(&mut out).unwrap();
                     assert_eq!(n_written, out.len());
+                    parse_back(&out);
                     let p4t: Vec<String> = p4.iter().map(|p| format!("({}, {})", cq::hex(&p.ip_address.octets()), cq::n(p.port))).collect();
                     let p6t: Vec<String> = p6.iter().map(|p| format!("({}, {})", cq::hex(&p.ip_address.octets()), cq::n(p.port))).collect();
                     items.push(format!(
@@ -84,6 +105,7 @@ pub fn run(args: &Args) {
                     let r = ScrapeResponse { files: files.clone() };
                     let mut out = Vec::new();
                     r.write_bytes(&mut out).unwrap();
+                    parse_back(&out);
                     let ft: Vec<String> = files
                         .iter()
                         .map(|(h, s)| format!("({}, ({}, {}))", cq::hex(&h.0), cq::n(s.complete), cq::n(s.incomplete)))
@@ -95,6 +117,7 @@ pub fn run(args: &Args) {
                     let r = FailureResponse::new(reason);
                     let mut out = Vec::new();
                     r.write_bytes(&mut out).unwrap();
+                    parse_back(&out);
                     items.push(format!("RFail {} {}", cq::hex(reason.as_bytes()), cq::hex(&out)));
                 }
             }
